@@ -33,7 +33,7 @@ ASSUMPTIONS = [
     "a fulfilled single constraint carries no error message (as every shipped producer guarantees); an unfulfilled one carries a message or gets the default message from evaluate_single_format_constraint",
 ]
 BOUNDS = {"quick": {"max_atoms": 12}, "thorough": {"max_atoms": 24}}
-KEYS = ["901", "902", "903", "950", "998", "999"]
+KEYS = ["901", "932", "903", "935", "998", "999"]  # 932 / 935: keys for which FcEvaluator ships methods of its own
 
 _EVALUATOR_CACHE = {}
 
